@@ -1,5 +1,6 @@
 SPECIFICATION Spec
-CONSTANTS MaxOp = 4
+CONSTANTS NTx = 2
+          Idxs = {0, 1}
           Vals = {1, 2, 3}
           Targets = {1, 2, 3, 4, 5}
           MinChanges = {0, 2}
